@@ -89,7 +89,7 @@ impl<'a> Gen<'a> {
     fn coord(&mut self, allow_neg: bool) -> Dec {
         self.site += 1;
         let k = self.site;
-        let alt = self.c.cost(16, "coord");
+        let alt = self.c.cost(18, "coord");
         match alt {
             0 => Dec { mant: 15 + 10 * k, scale: 1 },          // 1.5 + k
             1 => Dec { mant: 2 + k, scale: 0 },                // integer
@@ -114,6 +114,15 @@ impl<'a> Gen<'a> {
                     Dec { mant: -(1 + 10 * k), scale: 5 }
                 } else {
                     Dec { mant: 3 + 10 * k, scale: 5 }
+                }
+            }
+            // beyond 2^31 raw units (214748.3648 um and more): whole numbers of units all the same
+            16 => Dec { mant: 2_147_483_648 + 10 * k, scale: 4 },
+            17 => {
+                if allow_neg {
+                    Dec { mant: -(3_000_005 + 10 * k), scale: 1 }
+                } else {
+                    Dec { mant: 3_000_005 + 10 * k, scale: 1 }
                 }
             }
             // non-zero but smaller than one raw unit (nothing left after truncation): still not a whole number of units
@@ -389,7 +398,7 @@ impl CaseDriver for C16 {
     fn describe(&self, tier: Tier) -> Describe {
         Describe {
             rule: format!(
-                "LefLibrary values built directly: 1-2 macros with SIZE, 0-2 pins x 1-2 ports x 1-2 layer geometries, 0-2 obstruction layers (second optionally on the same layer => merged), 1-2 geometries per layer of kind RECT / POLYGON (3-5 points) / PATH (2-3 points, layer WIDTH), the second one optionally the first one stated again (digit for digit, with one more trailing zero on every number, or with the same digits and the decimal point moved one place: still two shapes), layer names from {{m1, M1, via, boundary, e-acute}}, a layer block optionally holding a VIA placement next to its shapes, the import optionally given a layer set that already knows m1 and via (sharing number 68), M1 and an unrelated layer; polygons optionally closed explicitly and paths optionally returning to their first point or stating a point twice in a row (digit for digit, or with one more trailing zero); UNITS DATABASE MICRONS absent / 1000 / 100 / 2000 / 10000 / 20000 (raw units stay 1e-4 um: the import declares Angstrom); the macro optionally has an ORIGIN statement ((0.5, 1.25) / (-2, 0)), which must not move any coordinate; every coordinate site takes one of 16 decimals Decimal::new(mantissa, scale) built from the site counter (so all sites differ: x != y everywhere): scale 0,1,2,4,5,6, negative, negative between -1 and 0, trailing zeros, zero spelled 0 and 0.000, four values (two positive, two negative) that are not a whole number of 1e-4 um, and two non-zero values smaller than one such unit (0.00005, -0.000099). Free: kind of the first shape and second macro; all other choices cost one deviation; all choice sequences with <= {} deviations. A state is one library value; non-trivial = at least one deviation. Oracle: value*10^4 computed on the decimal digits.",
+                "LefLibrary values built directly: 1-2 macros with SIZE, 0-2 pins x 1-2 ports x 1-2 layer geometries, 0-2 obstruction layers (second optionally on the same layer => merged), 1-2 geometries per layer of kind RECT / POLYGON (3-5 points) / PATH (2-3 points, layer WIDTH), the second one optionally the first one stated again (digit for digit, with one more trailing zero on every number, or with the same digits and the decimal point moved one place: still two shapes), layer names from {{m1, M1, via, boundary, e-acute}}, a layer block optionally holding a VIA placement next to its shapes, the import optionally given a layer set that already knows m1 and via (sharing number 68), M1 and an unrelated layer; polygons optionally closed explicitly and paths optionally returning to their first point or stating a point twice in a row (digit for digit, or with one more trailing zero); UNITS DATABASE MICRONS absent / 1000 / 100 / 2000 / 10000 / 20000 (raw units stay 1e-4 um: the import declares Angstrom); the macro optionally has an ORIGIN statement ((0.5, 1.25) / (-2, 0)), which must not move any coordinate; every coordinate site takes one of 18 decimals Decimal::new(mantissa, scale) built from the site counter (so all sites differ: x != y everywhere): scale 0,1,2,4,5,6, negative, negative between -1 and 0, trailing zeros, zero spelled 0 and 0.000, four values (two positive, two negative) that are not a whole number of 1e-4 um, two non-zero values smaller than one such unit (0.00005, -0.000099), and two values beyond 2^31 raw units (214748.3648.., -300000.5..). Free: kind of the first shape and second macro; all other choices cost one deviation; all choice sequences with <= {} deviations. A state is one library value; non-trivial = at least one deviation. Oracle: value*10^4 computed on the decimal digits.",
                 self.bound(tier)
             ),
             assumptions: vec!["WIDTH is only generated on layers that hold a PATH (an unused non-representable WIDTH is not a coordinate of any shape)".into()],
